@@ -268,6 +268,61 @@ theorem threshold_bls_satisfies_laws {V : Type} (g1 : G1) (Hm : M → G2) (droot
 
 end Algebra
 
+section Protocols
+variable {PK SK Sig V : Type}
+
+/-- **A cluster-changing protocol keeps every validator's group key.** The new lock that
+`updateLockProtocolStep` assembles (reshare, add / remove / replace operators) has, validator by
+validator and in the same order, the group public key, the deposit data and the builder
+registration of the OLD lock — whatever new shares the reshare produced; only the public shares are
+replaced. (That the new shares are shares of the same secret is `Props/C11.lean`
+`reshare_keeps_key`.) -/
+theorem protocol_lock_keeps_group_keys (oldVals : List (DistValidator PK Sig)) (shares : List (Share PK SK))
+    (new : List (DistValidator PK Sig)) (h : updateLockValidators oldVals shares = some new) :
+    new.map (·.pubKey) = oldVals.map (·.pubKey) ∧ new.map (·.deposits) = oldVals.map (·.deposits) ∧
+    new.map (·.reg) = oldVals.map (·.reg) ∧ new.length = oldVals.length :=
+  updateLockValidators_keeps oldVals shares new h
+
+/-- **The new lock lists the new public shares in the NEW share-index order.** The reshare files the
+new public share of the `r`-th operator of the new cluster under `key r` in `Share.PublicShares` —
+`processKey` uses the operator's ORIGINAL share index, so after a removal the keys are a strictly
+increasing sequence with gaps (`remainingShareIdx`), while the new polynomial is evaluated at the
+compact point `r+1`. For every strictly increasing `key` and every iteration order of the maps, the
+new lock's `PubShares[r]` of validator `v` is the public share `psh r v` of the new cluster's `r`-th
+operator — the index `charon run` uses it under. -/
+theorem protocol_lock_pubshares_in_new_share_order (n' : Nat) (key : Nat → Nat)
+    (hmono : ∀ a b, a < b → b < n' → key a < key b) (vals : List V) (psh : Nat → V → PK)
+    (shares : List (Share PK SK))
+    (hsh : List.Forall₂ (fun s v => (s.pubShares.map Prod.fst).Perm ((List.range n').map key) ∧
+      ∀ r < n', get? s.pubShares (key r) = some (psh r v)) shares vals)
+    (oldVals : List (DistValidator PK Sig)) (hlen : oldVals.length = vals.length) :
+    ∃ new, updateLockValidators oldVals shares = some new ∧
+      new.map (·.pubShares) = vals.map fun v => (List.range n').map fun r => psh r v :=
+  updateLockValidators_pubShares n' key hmono vals psh shares hsh oldVals hlen
+
+/-- **Remove-operators bookkeeping.** The new operator list holds exactly the operators that are not
+being removed, in lock order; their original share indices (keys of the new `PublicShares` maps, of
+the exchanger's peer map, and the index each signs the new lock hash with) are strictly increasing,
+so `protocol_lock_pubshares_in_new_share_order` applies; an accepted threshold is at least
+`ceil(2n'/3)` and, when given explicitly, below the new node count. -/
+theorem remove_operators_bookkeeping {O : Type} [DecidableEq O] (ops removing : List O) :
+    (∀ o, o ∈ removeOperators ops removing ↔ o ∈ ops ∧ o ∉ removing) ∧
+    (removeOperators ops removing).Sublist ops ∧
+    (remainingShareIdx ops removing).Pairwise (· < ·) ∧
+    (∀ n removed newT x, removeThreshold n removed newT = some x →
+      clusterThreshold (n - removed) ≤ x ∧ (newT ≠ 0 → x = newT ∧ x < n - removed)) :=
+  ⟨mem_removeOperators ops removing, removeOperators_sublist ops removing,
+   remainingShareIdx_increasing ops removing, removeThreshold_spec⟩
+
+/-- **Replace-operator keeps every other operator at its position**: the new list has the old
+length and differs from the old one only at one position, which held the replaced operator. -/
+theorem replace_operator_keeps_positions {O : Type} [DecidableEq O] (ops : List O) (old new : O) (l : List O)
+    (h : replaceOperator ops old new = some l) :
+    l.length = ops.length ∧ ∃ i, ops[i]? = some old ∧ l = ops.set i new :=
+  replaceOperator_spec ops old new l h
+
+end Protocols
+
 /-! ### Non-vacuity: the hypotheses are satisfiable and the model computes (`toyCrypto`) -/
 
 section Examples
@@ -318,6 +373,21 @@ example : (recv (PK := Nat) (Sig := Nat) 3 [(4, 1), (5, 2), (6, 3)] {} 5 sigLock
 /-- the `Laws` are satisfiable. -/
 example : Laws toyCrypto 3 (fun v : Nat => (0, v)) (fun i v => (i, v)) (fun i v => (i, v)) (fun v m => ((0, v), m)) :=
   toy_laws 3 (by decide)
+
+/-- remove operator `b` of `[a, b, c, d]`: operators `[a, c, d]`, original share indices `[1, 3, 4]`;
+a share whose `PublicShares` map is keyed `{4, 1, 3}` gives the lock's public shares in the new order. -/
+example : removeOperators ["a", "b", "c", "d"] ["b"] = ["a", "c", "d"] ∧
+    remainingShareIdx ["a", "b", "c", "d"] ["b"] = [1, 3, 4] := by decide
+
+example : (updateLockValidators (SK := Nat) [(⟨(0, 0), [(1, 0), (2, 0), (3, 0), (4, 0)], [], none⟩ : DistValidator (Nat × Nat) Nat)]
+    [⟨(0, 0), 7, [(4, (103, 0)), (1, (101, 0)), (3, (102, 0))]⟩]).map (fun l => l.map (·.pubShares)) =
+    some [[(101, 0), (102, 0), (103, 0)]] := by decide
+
+example : removeThreshold 7 2 0 = some 4 ∧ removeThreshold 7 2 5 = none ∧ removeThreshold 7 2 4 = some 4 ∧
+    removeThreshold 7 2 3 = none := by decide
+
+example : replaceOperator ["a", "b", "c"] "b" "x" = some ["a", "x", "c"] ∧ replaceOperator ["a", "b"] "z" "x" = none := by
+  decide
 
 end Examples
 
